@@ -573,7 +573,19 @@ class NDNApp:
             deadline += DEFAULT_LIFETIME
         node.append_interest(future, deadline, interest_param, validator, implicit_sha256)
         self.face.send(raw_interest)
+        # The caller may start to await the result much later (or never): the lifetime has a timer of its own
+        lifetime = interest_param.lifetime if interest_param.lifetime is not None else DEFAULT_LIFETIME
+        aio.get_running_loop().call_later(lifetime / 1000.0, self._expire_interest, future, node_name, node)
         return self._wait_for_data(future, deadline, node_name, node)
+
+    def _expire_interest(self, future: aio.Future, node_name: enc.FormalName, node: InterestTreeNode):
+        if future.done():
+            return
+        if node.timeout(future) and self._pit.get(node_name) is node:
+            del self._pit[node_name]
+        future.set_exception(types.InterestTimeout())
+        # Nobody may be waiting (yet): do not let asyncio report the exception as never retrieved
+        future.exception()
 
     async def _wait_for_data(self, future: aio.Future, deadline: int, node_name: enc.FormalName,
                              node: InterestTreeNode):
